@@ -1,13 +1,12 @@
 #!/bin/bash
-# Offline setup after a fresh restore: pre-build every harness binary so the
-# first check is not slow. Fetches nothing.
+# Offline setup after a fresh restore: pre-build the harness binary of every
+# check registered in MANIFEST.json so the first run is not slow. Fetches nothing.
 cd "$(dirname "$0")/.."
 export GOFLAGS=-mod=mod GOPROXY=off GOSUMDB=off GOTOOLCHAIN=local
 mkdir -p .work/bin evidence replay
+ids=$(python3 -c "import json;print(' '.join(c['property_id'].lower() for c in json.load(open('MANIFEST.json'))['checks']))")
 cd harness
-go build -tags verif ./... || exit 1
-for d in cmd/*/; do
-  id=$(basename "$d")
+for id in $ids; do
   go build -tags verif -o "../.work/bin/$id" "./cmd/$id" || exit 1
   if [ -f "cmd/$id/RACE" ]; then go build -race -tags verif -o "../.work/bin/$id.race" "./cmd/$id" || exit 1; fi
 done
